@@ -36,9 +36,9 @@ TECHNIQUE = "runtime monitoring: attribute-write tap + history-free shadow execu
 
 def floors(tier):
     q = tier == "quick"
-    return {"frame/no-write": 6000 if q else 150000, "history-free": 6000 if q else 150000,
-            "history-free/feedback": 4000 if q else 100000,
-            "threads/call": 1500 if q else 40000, "hashseed/digest": 3 if q else 5}
+    return {"frame/no-write": 6000 if q else 600000, "history-free": 6000 if q else 600000,
+            "history-free/feedback": 4000 if q else 400000,
+            "threads/call": 1500 if q else 160000, "hashseed/digest": 3 if q else 20}
 
 
 # ------------------------------------------------------------------------------------------- workload
@@ -63,7 +63,7 @@ def gen_ops(rng, cfg, nops, kmax=5, pmax=3):
 
 
 def generate(ctx):
-    n = ctx.budget(700, 12000)
+    n = ctx.budget(700, 48000)
     for _ in range(n):
         m = ctx.rng.choice(MODEL_NAMES)
         cfg = gen.gen_cfg(ctx.rng)
@@ -72,13 +72,13 @@ def generate(ctx):
             cfg["tau"] = cfg["beta"] * ctx.rng.choice([1, 3])
         ops = gen_ops(ctx.rng, cfg, ctx.rng.randint(5, 50 if ctx.tier == "thorough" else 25))
         yield "seq", dict(model=m, cfg=cfg, ops=ops, idmode=ctx.rng.choice(["default", "sorted", "reversed", "equal", "swapnames"]))
-    for _ in range(ctx.budget(300, 6000)):
+    for _ in range(ctx.budget(300, 24000)):
         m = ctx.rng.choice(MODEL_NAMES)
         cfg = league.league_cfg(ctx.rng, gen)
         cfg["tau"] = cfg["beta"] * ctx.rng.choice([0.02, 0.3, 1.0])
         yield "fb", dict(model=m, cfg=cfg, players=ctx.rng.randint(6, 14), steps=ctx.rng.randint(10, 40 if ctx.tier == "quick" else 120),
                          seed=ctx.rng.randrange(2 ** 31))
-    rounds = ctx.budget(60, 1500)
+    rounds = ctx.budget(60, 6000)
     for _ in range(rounds):
         m = ctx.rng.choice(MODEL_NAMES)
         cfg = gen.gen_cfg(ctx.rng)
@@ -360,7 +360,7 @@ def digest_workload(seed, nseq):
 
 def driver_steps(tier, seed, merged):
     seeds = ["0", "1", "2"] if tier == "quick" else ["0", "1", "2", "12345", "random"]
-    nseq = 60 if tier == "quick" else 600
+    nseq = 60 if tier == "quick" else 2400
     digests = {}
     for hs in seeds:
         env = dict(os.environ, PYTHONHASHSEED=hs, PYTHONDONTWRITEBYTECODE="1")
